@@ -1,3 +1,142 @@
-use crate::run::{Ctx, Ev};
+//! C15 - per-block price band.
+use serde_json::json;
+
+use crate::refmodel::*;
+use crate::run::{pq_u, Ctx, Ev};
+use crate::types::*;
 use crate::world::World;
-pub fn step(_ctx: &Ctx, _w: &World, _ev: &mut Ev) {}
+
+/// band around the price at the end of the last earlier block in which the reserves changed
+pub fn band(ctx: &Ctx, v: usize) -> Option<(U, U, U)> {
+    let recs = ctx.model.prices.get(v)?;
+    let h = ctx.post.height;
+    let r = recs.iter().rev().find(|r| r.height < h)?;
+    let vo = &ctx.pre.vamms[v];
+    let d = vo.decimals.max(1);
+    let l = vo.fluct;
+    let upper = mul_div(r.price, d + l, d)?;
+    let lower = mul_div(r.price, d.checked_sub(l)?, d)?;
+    Some((lower, upper, r.price))
+}
+
+fn edge(spot: U, lower: U, upper: U) -> &'static str {
+    let w = (upper - lower).max(1);
+    if spot > upper {
+        "above"
+    } else if spot < lower {
+        "below"
+    } else if upper - spot <= w / 10 {
+        "near_upper"
+    } else if spot - lower <= w / 10 {
+        "near_lower"
+    } else {
+        "inside"
+    }
+}
+
+pub fn step(ctx: &Ctx, w: &World, ev: &mut Ev) {
+    let v = match ctx.step.op.vamm_idx() {
+        Some(v) if v < ctx.pre.vamms.len() => v,
+        _ => return,
+    };
+    let vo = &ctx.pre.vamms[v];
+    if vo.fluct == 0 || !vo.ok {
+        return;
+    }
+    let (lower, upper, pref) = match band(ctx, v) {
+        Some(x) => x,
+        None => return,
+    };
+    let (s0, s1) = (vo.spot, ctx.post.vamms[v].spot);
+    let pre_out = s0 < lower || s0 > upper;
+    let post_out = s1 < lower || s1 > upper;
+    let tib = if ctx.model.trades_in_block[v].0 == ctx.post.height { ctx.model.trades_in_block[v].1.min(4) } else { 0 };
+    let det = || json!({"reference_price": pref.to_string(), "lower": lower.to_string(), "upper": upper.to_string(), "spot_pre": s0.to_string(), "spot_post": s1.to_string(), "limit": vo.fluct.to_string(), "trades_in_block": tib});
+    match &ctx.step.op {
+        Op::SwapInput { can_go_over, dir, .. } if w.cfg.kind == WorldKind::VammDirect => {
+            if pre_out {
+                ev.eval(true, &("direct_from_outside", ctx.out.ok, edge(s0, lower, upper)), det);
+                ev.count("swap_attempt_from_outside_band");
+                if ctx.out.ok && w.resolve(&ctx.step.actor) == ctx.pre.vamms[v].margin_engine {
+                    ev.violation("open_from_outside", &format!("direct,{}", edge(s0, lower, upper)), det());
+                }
+            } else if ctx.out.ok {
+                ev.eval(edge(s1, lower, upper) != "inside", &("direct", *dir, *can_go_over, edge(s1, lower, upper), tib), det);
+                if !*can_go_over && post_out {
+                    ev.violation("open_left_band", &format!("direct,{}", edge(s1, lower, upper)), det());
+                }
+            }
+        }
+        Op::SwapOutput { .. } if w.cfg.kind == WorldKind::VammDirect => {
+            if pre_out && ctx.out.ok && w.resolve(&ctx.step.actor) == ctx.pre.vamms[v].margin_engine {
+                ev.eval(true, &("direct_out_from_outside", edge(s0, lower, upper)), det);
+                ev.violation("open_from_outside", &format!("direct_output,{}", edge(s0, lower, upper)), det());
+            }
+        }
+        Op::Open { side, .. } if w.cfg.kind == WorldKind::Standard => {
+            let actor = w.resolve(&ctx.step.actor);
+            if pre_out {
+                ev.count("open_attempt_from_outside_band");
+            }
+            if !ctx.out.ok {
+                if pre_out {
+                    ev.eval(true, &("open_from_outside_rejected", edge(s0, lower, upper)), det);
+                }
+                return;
+            }
+            let holds = ctx.post.position(v, &actor).map(|p| p.size != 0).unwrap_or(false);
+            if !holds {
+                return;
+            }
+            ev.eval(edge(s1, lower, upper) != "inside" || pre_out, &("open", *side, edge(s1, lower, upper), tib), det);
+            if edge(s1, lower, upper) != "inside" {
+                ev.count("open_near_band_edge");
+            }
+            if post_out {
+                ev.violation("open_left_band", &format!("{},{},drift_{}", side.js(), edge(s1, lower, upper), if s0 > pref { "up" } else if s0 < pref { "down" } else { "none" }), det());
+            }
+            if pre_out {
+                ev.violation("open_from_outside", &format!("{},{}", side.js(), edge(s0, lower, upper)), det());
+            }
+        }
+        Op::Close { .. } if w.cfg.kind == WorldKind::Standard => {
+            if !ctx.out.ok {
+                return;
+            }
+            let actor = w.resolve(&ctx.step.actor);
+            let eng = ctx.pre.eng.clone().unwrap_or_default();
+            let d = w.d;
+            if eng.partial >= d {
+                return;
+            }
+            let pos = match ctx.pre.position(v, &actor) {
+                Some(p) if p.size != 0 => p.clone(),
+                _ => return,
+            };
+            let side = if pos.size > 0 { "long" } else { "short" };
+            let gone = ctx.post.position(v, &actor).is_none();
+            if gone {
+                ev.eval(edge(s1, lower, upper) != "inside", &("whole_close", side, edge(s1, lower, upper), tib), det);
+                if post_out {
+                    ev.violation("whole_close_left_band", &format!("{},{},drift_{}", side, edge(s1, lower, upper), if s0 > pref { "up" } else if s0 < pref { "down" } else { "none" }), det());
+                }
+            } else {
+                ev.count("partial_close");
+                let a = pq_u(ctx.preq, "partial_amount").unwrap_or_else(|| mul_div(pos.size.unsigned_abs(), eng.partial, d).unwrap_or(0));
+                let closed = (ctx.post.vamms[v].size - ctx.pre.vamms[v].size).unsigned_abs();
+                let p2 = ctx.post.position(v, &actor).cloned();
+                let pos_closed = p2.map(|p| (pos.size - p.size).unsigned_abs()).unwrap_or(0);
+                ev.eval(true, &("partial_close", side, closed == a, tib), || json!({"partial_close": side, "size": pos.size.to_string(), "configured_fraction_amount": a.to_string(), "base_closed": closed.to_string()}));
+                if closed != a || pos_closed != a {
+                    // one quote ulp is worth about b/q base ulps: classify the deviation against that bound
+                    let po = &ctx.post.vamms[v];
+                    let bound = (vo.b / vo.q.max(1)).max(po.b / po.q.max(1)) + 2;
+                    let dev = a.abs_diff(closed);
+                    let class = if dev <= bound && closed == pos_closed { "within_one_quote_ulp" } else { "larger" };
+                    ev.violation("partial_fraction", &format!("{},{}", side, class), json!({"size": pos.size.to_string(), "expected_closed": a.to_string(), "vamm_base_closed": closed.to_string(), "position_base_closed": pos_closed.to_string(), "one_quote_ulp_in_base_ulps_bound": bound.to_string()}));
+                }
+            }
+        }
+        _ => {}
+    }
+}
